@@ -975,11 +975,16 @@ func simplifyQuery(query b6.Query) b6.Query {
 	return query
 }
 
+func isLetter(c byte) bool {
+	return (c >= 'a' && c <= 'z') || (c >= 'A' && c <= 'Z')
+}
+
 func EscapeTagKey(v string) string {
 	if v == "" {
 		return ""
 	}
-	escape := (v[0] < 'a' && v[0] > 'z') && (v[0] < 'A' && v[0] > 'Z') && v[0] != '_' && v[0] != '#' && v[0] != '@'
+	// The lexer only starts a symbol on a letter, and a tag key on # or @
+	escape := !isLetter(v[0]) && v[0] != '#' && v[0] != '@'
 	if !escape {
 		for _, r := range v[1:] {
 			if escape = !isValidSymbolRune(r); escape {
@@ -998,7 +1003,8 @@ func EscapeTagValue(v string) string {
 	if v == "" {
 		return ""
 	}
-	escape := (v[0] < 'a' && v[0] > 'z') && (v[0] < 'A' && v[0] > 'Z') && v[0] != '_'
+	// The lexer only starts a symbol on a letter
+	escape := !isLetter(v[0])
 	if !escape {
 		for _, r := range v[1:] {
 			if escape = !isValidSymbolRune(r); escape {
